@@ -57,6 +57,15 @@ prop("C13",
      rule="generated duplicate-free documents x up to 5 sub-values reached by get, plus every scalar literal directly: accessor string (type, bool, number class+bits, decoded string, raw number, is_* flags) of LazyValue (from get / serde / clone) and OwnedLazyValue (from LazyValue / serde / clone / to_lazyvalue) compared with the accessors of the reference parse of the raw text; verbatim serialization; Value::try_from; owned-lazy views walked; one mutation (push / replace / take) of an owned-lazy array with the clone taken before it",
      assumptions=[])
 
+prop("C07",
+     rule="literals: boundary pool, every digit count (1..120 quick / 1..800 thorough) as integer / negative / pure fraction / mixed, every power of ten -400..400, 19/20-digit and 128-bit integer boundaries, exact decimal expansions of midpoints between adjacent doubles (exact / just above / just below), long digit runs at every alignment of the 16-byte fraction reader, huge and zero-padded exponents, generated numbers; each through sonic_number::parse_number, the DOM, and 12 typed targets; simd_str2int on random 16-byte windows; every literal also through Rust's str::parse::<f64> as a second opinion on the specification",
+     unit_ops={"str2int"},
+     assumptions=["Spec/Num.v (exact decimal value, round half to even by integer arithmetic) is the definition of 'nearest f64'; it is compared with Rust's str::parse::<f64> on every finite literal of every run (op numstd) but its equality with Flocq's rounding operator is not proved",
+                  "the Eisel-Lemire and big-decimal paths are not modelled: they are covered by the correspondence against the specification only"])
+prop("C08",
+     rule="f64: every exponent (3 values each), neighbours of every power of ten, 10k random bit patterns (200k thorough); f32: every exponent + 10k random (all 2^32 in the thorough tier, implementation-only sweep); all u8/i8, sampled/boundary wider integers incl. 128-bit; DOM u64/i64/f64 routes; raw numbers from 1500 literals bare and quoted plus malformed ones: the printed text must be an RFC number whose exact value (Spec/Num.v) is the value written",
+     assumptions=["ryu and itoa are outside the repository: their output is checked case by case (valid number, denotes the value), not proved"])
+
 def classify_known(pid, case, known):
     """return the id of the recorded known finding this mismatch belongs to, or None"""
     for k in known:
